@@ -94,6 +94,7 @@ def run(ctx):
     prej, irej = H.conformance(ctx, 'Conf_RequestLine', outs, 'reqline')
     ctx.log('TLC evaluated %d cases: P-rejected %d, I-rejected %d' % (len(outs), len(prej), len(irej)))
     shown = {}
+    known = H.load_known('C22')
     for i in prej:
         o = outs[i]
         cls = classify(o)
@@ -101,7 +102,7 @@ def run(ctx):
         if shown.get(key, 0) >= (3 if cls['kind'] == 'other' else 1) or len(ctx.violations) >= 6:
             continue
         shown[key] = shown.get(key, 0) + 1
-        ctx.violation(('UBSan reported undefined behaviour; ' if o['ub'] else '') + 'request line %r (relaxed_header_parser=%d): parser reported %s, which RequestLine.tla does not allow' % (
+        H.report(ctx, known, ('UBSan reported undefined behaviour; ' if o['ub'] else '') + 'request line %r (relaxed_header_parser=%d): parser reported %s, which RequestLine.tla does not allow' % (
             bytes(o['in'])[:120], o['relaxed'], str(H.tuple_text(o['tuples'][o['one']]))[:400]), {'class': cls, 'case': H.project(o), 'line': cs.lines[i][:400]})
     for i in irej:
         if i not in prej and len(ctx.drift) < 5:
